@@ -3,6 +3,8 @@
      reset  {pool}
      renew  {tl, chain, sis, csr, ok, retia}: RequestVerifier.VerifyCMSSignedRenewalRequest over a trust DB
             holding the TRCs of time line tl, at now = 0; ok = 1 iff it returned a CSR (subject ISD-AS retia)
+            srv, sia, skey, sca, scover: the same request through RenewalServer.ChainRenewal (see Renew)
+     legacy {ok}: a ChainRenewalRequest without CMS envelope handed to the handler
      issue  {t, d, canb, cana, ok, asnb, asna, keyok, subjok, typeok, sigok, len}: CAPolicy.CreateChain at
             CurrentTime t with validity d under a CA certificate valid [canb, cana]
    Monitor (only-if): ok => RenewRule = "";  issued => IssueRule = "".                             *)
@@ -10,12 +12,12 @@ EXTENDS TrustStoreOps, TLC, Json
 
 Trace == ndJsonDeserialize("trace.ndjson")
 
-VARIABLES l, pool, nacc, ngrace, nissued
-vars == <<l, pool, nacc, ngrace, nissued>>
+VARIABLES l, pool, nacc, ngrace, nissued, nsrv
+vars == <<l, pool, nacc, ngrace, nissued, nsrv>>
 R == Trace[l]
 Certs == [i \in 1..Len(pool) |-> pool[i]]
 
-Init == l = 1 /\ pool = <<>> /\ nacc = 0 /\ ngrace = 0 /\ nissued = 0
+Init == l = 1 /\ pool = <<>> /\ nacc = 0 /\ ngrace = 0 /\ nissued = 0 /\ nsrv = 0
 Bad(key) == PrintT(<<"VERIF-BAD", l, key>>)
 
 Renew ==
@@ -32,6 +34,15 @@ Renew ==
     /\ (R.ok = 0 /\ rule = "" /\ ValidAt(Certs[NormChain(Certs, R.chain)[1]], 0)) => PrintT(<<"VERIF-DRIFT", l, "good-request-refused">>)
     /\ nacc' = nacc + (IF R.ok = 1 /\ rule = "" THEN 1 ELSE 0)
     /\ ngrace' = ngrace + (IF R.ok = 1 /\ viaPred THEN 1 ELSE 0)
+    \* the same request through RenewalServer.ChainRenewal (gRPC handler layer, real verifier and CA policy):
+    \* srv = 1 iff a chain was issued; sia / skey / sca / scover describe the issued chain
+    /\ (R.srv = 1 /\ rule # "") => Bad("renewal-handler-issues:" \o rule)
+    /\ (R.srv = 1 /\ rule = "" /\ R.sia # R.csr.ia) => Bad("renewal-handler-issued:other-subject")
+    /\ (R.srv = 1 /\ rule = "" /\ R.skey = 0) => Bad("renewal-handler-issued:other-key")
+    /\ (R.srv = 1 /\ rule = "" /\ R.sca = 0) => Bad("renewal-handler-issued:not-a-chain-of-the-ca")
+    /\ (R.srv = 1 /\ rule = "" /\ R.scover = 0) => Bad("renewal-handler-issued:outlives-ca-certificate")
+    /\ (R.srv # R.ok) => PrintT(<<"VERIF-DRIFT", l, "handler-and-verifier-disagree">>)
+    /\ nsrv' = nsrv + (IF R.srv = 1 /\ rule = "" THEN 1 ELSE 0)
     /\ UNCHANGED nissued
 
 Issue ==
@@ -40,19 +51,22 @@ Issue ==
     /\ (R.ok = 1 /\ rule = "" /\ <<R.asnb, R.asna>> # <<R.t, R.t + R.d>>) => PrintT(<<"VERIF-DRIFT", l, "issued-validity-not-as-requested">>)
     /\ (R.ok = 0 /\ R.canb <= R.t /\ R.t + R.d <= R.cana) => PrintT(<<"VERIF-DRIFT", l, "coverable-request-refused">>)
     /\ nissued' = nissued + (IF R.ok = 1 /\ rule = "" THEN 1 ELSE 0)
-    /\ UNCHANGED <<nacc, ngrace>>
+    /\ UNCHANGED <<nacc, ngrace, nsrv>>
 
 Step == /\ l <= Len(Trace)
         /\ l' = l + 1
-        /\ CASE R.ev = "reset" -> pool' = R.pool /\ UNCHANGED <<nacc, ngrace, nissued>>
+        /\ CASE R.ev = "reset" -> pool' = R.pool /\ UNCHANGED <<nacc, ngrace, nissued, nsrv>>
+             [] R.ev = "legacy" -> /\ (R.ok = 1 => Bad("renewal-handler-accepts-request-without-cms"))
+                                   /\ UNCHANGED <<pool, nacc, ngrace, nissued, nsrv>>
              [] R.ev = "renew" -> Renew /\ UNCHANGED pool
              [] R.ev = "issue" -> Issue /\ UNCHANGED pool
-             [] OTHER -> Bad("no-spec-action:" \o R.ev) /\ UNCHANGED <<pool, nacc, ngrace, nissued>>
+             [] OTHER -> Bad("no-spec-action:" \o R.ev) /\ UNCHANGED <<pool, nacc, ngrace, nissued, nsrv>>
 
 Done == /\ l = Len(Trace) + 1
         /\ PrintT(<<"VERIF-STAT", "accepted", nacc>>)
         /\ PrintT(<<"VERIF-STAT", "accepted_via_grace", ngrace>>)
         /\ PrintT(<<"VERIF-STAT", "issued", nissued>>)
+        /\ PrintT(<<"VERIF-STAT", "issued_by_handler", nsrv>>)
         /\ PrintT(<<"VERIF-DONE", Len(Trace)>>)
         /\ UNCHANGED vars
 
